@@ -239,18 +239,34 @@ def trust_part(job, r):
             if parse_ctx:
                 c('ctxfree 1')
             continue
+        # file specific constraints (KSI_PublicationsFile_setCertConstraints) take the place of the context's defaults; cleared again
+        # (NULL) the defaults count. The expectation below is computed from whatever set is in force at verification time.
+        fs = None
+        if i >= 4 and rng.random() < 0.35:
+            fs_kind = rng.choice(['email', 'email', 'email-off', 'cn-off'])
+            fs_set = {'email': {EMAIL: subj[EMAIL]}, 'email-off': {EMAIL: 'nobody@guardtime.test'}, 'cn-off': {CN: 'pub.exampl'}}[fs_kind]
+            q2 = c('pubfileconstraints 0 ' + ' '.join('%s=%s' % kv for kv in fs_set.items()))
+            fs = (fs_kind, fs_set)
+            if rng.random() < 0.5:
+                q2 = c('pubfileconstraints 0 clear')
+                if q2.rc != 0 or q2.get('nfile') not in ('-1', '0'):
+                    r.viol('constraints:file-specific-not-cleared', 'KSI_PublicationsFile_setCertConstraints(pf, NULL): rc=%#x, %s file specific constraint(s) still reported' % (q2.rc, q2.get('nfile')), '')
+                fs = ('cleared', None)
+            r.count('file_specific_constraints_%s' % ('cleared' if fs[1] is None else 'in_force'))
         api = rng.choice(['verify', 'ctx'])
         v = c('pubfileverify 0 0 api=%s' % api)
+        if fs is not None and fs[1] is not None:
+            cons_kind, cons = 'file:' + fs[0], fs[1]
         signer_subject_ok = signer is not w.signer2
         chain_ok = (signer.ca is w.ca and anchors in ('good', 'both')) or (signer.ca is w.ca2 and anchors in ('other', 'both'))
-        cons_ok = bool(cons) and cons_kind in ('email', 'email+cn', 'all') and signer_subject_ok
+        cons_ok = bool(cons) and cons_kind in ('email', 'email+cn', 'all', 'file:email') and signer_subject_ok
         if cons_kind == 'all' and not all(' ' not in x for x in subj.values()):
             cons_ok = bool(cons) and signer_subject_ok
         should = range_kind == 'exact' and chain_ok and cons_ok
         trusted = v.rc == 0
         r.observe((range_kind, anchors, cons_kind, signer is w.signer, api, trusted, parse_ctx))
         r.count('verify_%s' % ('trusted' if trusted else 'untrusted'))
-        replay = 'parsed-in-other-context=%d range=%s anchors=%s constraints=%s signer=%s api=%s file=%s' % (parse_ctx, range_kind, anchors, cons, 'good' if signer is w.signer else ('foreign-ca' if signer is w.foreign else 'other-subject'), api, raw.hex())
+        replay = 'file-specific-constraints=%s ' % (fs and fs[0],) + 'parsed-in-other-context=%d range=%s anchors=%s constraints=%s signer=%s api=%s file=%s' % (parse_ctx, range_kind, anchors, cons, 'good' if signer is w.signer else ('foreign-ca' if signer is w.foreign else 'other-subject'), api, raw.hex())
         if trusted and not should:
             why = ('signed-range-' + range_kind) if range_kind != 'exact' else ('untrusted-anchor' if not chain_ok else ('no-constraints' if not cons else 'constraint-mismatch:' + cons_kind))
             r.viol('verify:%s:trusted%s' % (why, ':parsed-in-other-context' if parse_ctx else ''), 'publications file reported trusted although %s' % why, replay)
